@@ -254,7 +254,7 @@ def _one(inp: Dict[str, Any], pids: PayloadIds, t0: float, opts: Dict[str, Any],
             summary.append({"id": inp, "build": "error", "exc": exc_sig(e)})
             return
         st0 = project(scfg, pids)
-        if not named_closed(st0["H"]):
+        if inp.get("dom") != "M" and not named_closed(st0["H"]):
             summary.append({"id": inp, "build": "notclosed"})
             return
         beh = record_restructure(
